@@ -57,7 +57,14 @@ theorem addRepair_repOk (env : Nat → Content) (sd : SlotData) (h : H) (s : Shr
     RepOk (addRepair env sd h s).1 := by
   unfold addRepair
   simp only
-  have hcomp := addShred_completed env ((repGet sd.rep h).getD (BlockData.new sd.dis.cap sd.dis.slot)) s
+  have hcomp : (addShred env ((repGet sd.rep h).getD (BlockData.new sd.dis.cap sd.dis.slot)) s).1.completed =
+        ((repGet sd.rep h).getD (BlockData.new sd.dis.cap sd.dis.slot)).completed ∨
+      ∃ info txs, (addShred env ((repGet sd.rep h).getD (BlockData.new sd.dis.cap sd.dis.slot)) s).2 = .ev (.block info) ∧
+        (addShred env ((repGet sd.rep h).getD (BlockData.new sd.dis.cap sd.dis.slot)) s).1.completed =
+          some ⟨info.hash, info.parent, txs⟩ := by
+    cases hty : s.ty with
+    | true => rw [addShred_of_ty _ _ s hty]; exact addShred_completed env _ s
+    | false => rw [addShred_wrongType _ _ s hty]; exact Or.inl rfl
   generalize addShred env ((repGet sd.rep h).getD (BlockData.new sd.dis.cap sd.dis.slot)) s = br at hcomp
   obtain ⟨b, r⟩ := br
   simp only at hcomp ⊢
@@ -150,7 +157,7 @@ def Valid (st : RepairSt) : Resp → Prop
   | .sliceRoot (.root b i) root π => checkProof root i b.hash π = true
   | .shred (.shred b i j) slot s sigOk =>
     slot = b.slot ∧ s.slice = i ∧ s.idx = j ∧ rootGet st.sliceRoots (b, i) = some s.root ∧
-      s.isLast = decide (lastGet st.lastSlices b = some i) ∧ sigOk = true
+      s.isLast = decide (lastGet st.lastSlices b = some i) ∧ s.ty = true ∧ sigOk = true
   | _ => False
 
 /-- every outstanding shred request has its slice root proven (what makes `unreachable!` unreachable) -/
@@ -160,7 +167,8 @@ def RootsKnown (st : RepairSt) : Prop :=
 /-- **A response that fails validation changes nothing (fix D4)** — wrong variant, invalid or
     truncated or foreign proof, wrong root, wrong or aliased last-slice index, shred with wrong
     slot / slice / index / root, with a last-slice flag that disagrees with the proven last slice
-    index (fix D26), or without the leader's signature: requester state (in particular the
+    index (fix D26), with a data/coding type that does not fit its index (fix D15b), or without the leader's
+    signature: requester state (in particular the
     outstanding request and its pending timeout), blockstore and outputs are untouched, and the
     repair task does not panic. -/
 theorem invalid_response_inert (env : Nat → Content) (cap : Nat) (st : RepairSt) (store : Store) (resp : Resp)
@@ -202,13 +210,16 @@ theorem invalid_response_inert (env : Nat → Content) (cap : Nat) (st : RepairS
               · rename_i hl
                 split
                 · rfl
-                · rename_i hs
-                  exfalso; apply hv
-                  simp only [Valid]
-                  simp only [not_or, Decidable.not_not] at hidx
-                  simp only [Decidable.not_not] at hr
-                  simp only [ne_eq, Decidable.not_not] at hl
-                  refine ⟨hidx.1, hidx.2.1, hidx.2.2, by rw [hroot, hr], hl, by simpa using hs⟩
+                · rename_i hty
+                  split
+                  · rfl
+                  · rename_i hs
+                    exfalso; apply hv
+                    simp only [Valid]
+                    simp only [not_or, Decidable.not_not] at hidx
+                    simp only [Decidable.not_not] at hr
+                    simp only [ne_eq, Decidable.not_not] at hl
+                    refine ⟨hidx.1, hidx.2.1, hidx.2.2, by rw [hroot, hr], hl, by simpa using hty, by simpa using hs⟩
       | last _ => rfl
       | root _ _ => rfl
 
@@ -345,9 +356,11 @@ theorem handleResponse_tracked (env : Nat → Content) (cap : Nat) (st : RepairS
               · exact h
               · split
                 · exact h
-                · have hd := done_tracked st (.shred b i j) h
-                  repeat' split
-                  all_goals exact hd
+                · split
+                  · exact h
+                  · have hd := done_tracked st (.shred b i j) h
+                    repeat' split
+                    all_goals exact hd
       | last _ => exact h
       | root _ _ => exact h
 
@@ -526,9 +539,11 @@ theorem handleResponse_rootsKnown (env : Nat → Content) (cap : Nat) (st : Repa
               · exact h
               · split
                 · exact h
-                · have hd := done_rootsKnown st (.shred b i j) h
-                  repeat' split
-                  all_goals exact hd
+                · split
+                  · exact h
+                  · have hd := done_rootsKnown st (.shred b i j) h
+                    repeat' split
+                    all_goals exact hd
       | last _ => exact h
       | root _ _ => exact h
 
